@@ -27,6 +27,8 @@ HEADER = ("From TL Require Import Lib.Base Lib.GenTypes Model.DryBase Model.DryP
           "Definition V (f l c cnt occ : N) (refs : list (N * N * N)) : viol :=\n"
           "  Build_viol (n f) (n l) (n c) (n cnt) (n occ) (map (fun r => let '(a, b, d) := r in (n a, n b, n d)) refs).\n"
           "Definition RIn (tbl : list string) (f s e : N) (ids : list N) : row := RI tbl (n f) (n s) (n e) (map n ids).\n"
+          "Definition KW (fi : N) (calls : list (N * N)) (tests : list (N * N * bool)) : nat * list (nat * nat) * list (nat * nat * bool) :=\n"
+          "  (n fi, map (fun c => (n (fst c), n (snd c))) calls, map (fun t => let '(s, e, b) := t in (n s, n e, b)) tests).\n"
           "Definition j1 q exact (W k : N) := judge1 q exact (n W) (n k).\n"
           "Definition j2 q exact (W k : N) := judge2 q exact (n W) (n k).\n"
           "Open Scope N_scope.\n")
@@ -71,7 +73,8 @@ def corpus_cases():
 
 def dry_config(case) -> dict:
     return {"dry": {"enabled": True, "min_duplicate_lines": case["W"], "min_occurrences": case["k"],
-                    "storage_mode": case.get("storage_mode", "memory"), "detect_duplicate_constants": False}}
+                    "storage_mode": case.get("storage_mode", "memory"), "detect_duplicate_constants": False,
+                    "ignore": list(case.get("ignore", []))}}
 
 
 # ------------------------------------------------------------------ implementation
@@ -118,6 +121,33 @@ def _stored_rows(rule, index):
         return sorted([index[a], b, c, s] for a, b, c, s in rows)
     except Exception:  # noqa: BLE001
         return None
+
+
+def _kwarg_unit(case, paths):
+    """unit level (internal names looked up defensively): the real KeywordArgumentFilter on windows of the Python files"""
+    try:
+        import ast
+        import types
+        from src.linters.dry.block_filter import KeywordArgumentFilter
+        flt = KeywordArgumentFilter()
+    except Exception:  # noqa: BLE001
+        return None
+    out = []
+    for fi, f in enumerate(case["files"]):
+        if f["lang"] != "py":
+            continue
+        content = pm.render_file(f)
+        try:
+            calls = sorted({(nd.lineno, nd.end_lineno) for nd in ast.walk(ast.parse(content)) if isinstance(nd, ast.Call) and nd.lineno < nd.end_lineno})
+        except SyntaxError:
+            continue
+        tests = []
+        for _, s, e, snip in pm.windows(pm.ACTUAL, case["W"], fi, f)[:40]:
+            blk = types.SimpleNamespace(file_path=paths[fi], start_line=s, end_line=e, snippet=snip, hash_value=0)
+            tests.append((s, e, bool(flt.should_filter(blk, content))))
+        if tests:
+            out.append((fi, calls, tests))
+    return out
 
 
 def run_impl(case):
@@ -170,6 +200,7 @@ def run_impl(case):
             res["paths"] = [str(p) for p in paths]
         res["junk"] += junk2
         res["viols"] = obs
+        res["kw"] = _kwarg_unit(case, paths) if (case["stream"] == "flt" or case["order_seed"] % 5 == 0) else []
         if [t[:6] for t in obs] == [t[:6] for t in inst] and not junk:
             res["rows"] = rows
         else:
@@ -225,10 +256,14 @@ def coq_case(case, impl, phase: int) -> str:
         rows = "(Some " + coq.coq_list(items) + ")"
     exact = "true" if case["stream"] == "ord" else "false"
     head = f"let tbl := {coq.coq_list([cs(x) for x in tbl])} in "
+    kw = coq.coq_list(["KW %d %s %s" % (fi, coq.coq_list([f"({a}, {b})" for a, b in calls]),
+                                        coq.coq_list([f"({s}, {e}, {'true' if b else 'false'})" for s, e, b in tests]))
+                       for fi, calls, tests in (impl.get("kw") or [])])
+    pats = coq.coq_list([cs(p) for p in case.get("ignore", [])])
+    paths = coq.coq_list([cs(p) for p in impl["paths"]])
     if phase == 1:
-        return (head + f"j1 dry_actual {exact} {case['W']} {case['k']} {coq_files(case['files'])} "
-                f"{coq.coq_list([cs(p) for p in impl['paths']])} {viols} {msgs} {rows}")
-    return head + f"j2 dry_actual {exact} {case['W']} {case['k']} {coq_files(case['files'])} {viols} {rows}"
+        return head + f"j1 dry_actual {exact} {case['W']} {case['k']} {coq_files(case['files'])} {pats} {paths} {viols} {msgs} {rows} {kw}"
+    return head + f"j2 dry_actual {exact} {case['W']} {case['k']} {coq_files(case['files'])} {pats} {paths} {viols} {rows}"
 
 
 def eval_shards_robust(workdir: Path, shards: list[str], procs: int = 8, timeout: int = 900) -> list[list]:
@@ -329,7 +364,8 @@ def _mirror_unexplained(case, impl) -> list:
     W, k, files = case["W"], case["k"], case["files"]
     exact = case["stream"] == "ord"
     rows = None if exact or impl["rows"] is None else [tuple(r) for r in impl["rows"]]
-    bad = pm.spec_check(W, k, files, rep, complete=exact, rows=rows)
+    pats, paths = case.get("ignore", []), impl["paths"]
+    bad = pm.spec_check(W, k, files, rep, complete=exact, rows=rows, patterns=pats, paths=paths)
     if not bad:
         return []
     mrows = pm.all_rows(pm.ACTUAL, W, files)
@@ -337,9 +373,11 @@ def _mirror_unexplained(case, impl) -> list:
                 or any(l[0] == "C" and l[3] is not None and l[3][0] == "B" for f in files for l in f["lines"])
                 or any(r[2] - r[1] + 1 != W for r in mrows))
     if exact:
-        explained = rep == pm.model(pm.ACTUAL, W, k, files) and not pm.spec_check(W, k, files, pm.model(pm.IDEAL, W, k, files)) and in_class
+        explained = (rep == pm.model(pm.ACTUAL, W, k, files, pats, paths) and in_class
+                     and not pm.spec_check(W, k, files, pm.model(pm.IDEAL, W, k, files, pats, paths), patterns=pats, paths=paths))
     else:
-        explained = rows is not None and rep == pm.report(pm.ACTUAL, k, rows) and in_class
+        explained = (rows is not None and in_class
+                     and rep == [v for v in pm.report(pm.ACTUAL, k, rows) if not pm.suppressed(files, pats, paths, v[0], v[1], v[3])])
     return [] if explained else bad
 
 
@@ -353,7 +391,9 @@ def run(tier: str, seed: int, replay: str | None = None) -> int:
     chk.rule = ("seeded random multi-file projects (1-8 files, Python or TypeScript/JavaScript or mixed) built from a small statement pool "
                 "with 1-3 planted runs (length W-1..3W, whole / sliced / self-overlapping / with a comment-marker twin substituted) placed in "
                 "function, method and module bodies at varying indentation, with interleaved blank lines, line comments, /* */ comments, "
-                "docstrings/JSDoc, imports and compound-statement headers; W in 2..6, min_occurrences in 2..4; stream `ord` uses only constructs "
+                "docstrings/JSDoc, imports and compound-statement headers; in mixed projects semicolon-free .js files share the Python statement text "
+                "(cross-language duplicates); about 30% of the projects carry suppressions (a dry.ignore path pattern, `# dry: ignore-block/-next`, "
+                "thailint ignore-file / ignore / ignore-next-line / ignore-start..end in fixed spellings, as comment lines or trailing comments); W in 2..6, min_occurrences in 2..4; stream `ord` uses only constructs "
                 "no AST block filter applies to (model = implementation exactly, all clauses judged), stream `flt` adds class fields, decorators, "
                 "multi-line calls/literals, logger calls, except/raise pairs, interfaces (stored rows must be a subset of the model's, report = "
                 "model on the stored rows; soundness, mutuality and count judged).  A case is non-trivial when the implementation reports at "
@@ -363,7 +403,7 @@ def run(tier: str, seed: int, replay: str | None = None) -> int:
         "SQLite (GROUP BY / HAVING / ORDER BY file_path, start_line) is an oracle: the model receives files in file_path order; the SQL text is pinned by Gen",
         "which lines are docstring/JSDoc lines (ast / tree-sitter) and that no AST-based block filter fires on ordinary statements is parser behaviour, validated by the stored-rows comparison of every ordinary-stream case, not proved",
         "str.split() whitespace set, str.index/slicing and sep.join are modelled in Model/DryBase.v and validated by correspondence",
-        "inline suppressions (# dry: ignore-block, thailint: ignore ...) and dry.ignore path patterns are not generated: the `unless it is suppressed` exception of the property is not exercised",
+        "suppression: which directive a comment carries is decided for a fixed table of spellings (Model/DryPipe.v spellings); the general spelling -> directive relation (regexes, rule lists, aliases) is property C04's subject and is only validated here for these spellings; dry.ignore patterns are matched against the path with the scratch root removed",
         "min_duplicate_lines = 1 and min_occurrences = 1 are outside the checked domain (W >= 2 for the statement detectors, k >= 2 for `names another location`)",
     ]
     chk.build(["theories/Props/C03.v"], ["DryGen"], known_v=["theories/Props/C03Known.v"])
@@ -409,7 +449,7 @@ def run(tier: str, seed: int, replay: str | None = None) -> int:
             if bad:
                 chk.violation({"reason": "duplicate-code report violates: " + ", ".join(bad) + " (verdict of the Python mirror of the model: "
                                          "the Coq model could not be built/evaluated, see broken_obligations)",
-                               "case": {k: case[k] for k in ("W", "k", "stream", "via", "order_seed", "storage_mode", "files") if k in case},
+                               "case": {k: case[k] for k in ("W", "k", "stream", "via", "order_seed", "storage_mode", "ignore", "files") if k in case},
                                "impl": [t[:7] for t in impl["viols"]]})
                 break
     cands_all = None
@@ -426,7 +466,13 @@ def run(tier: str, seed: int, replay: str | None = None) -> int:
         chk.sample({"W": case["W"], "k": case["k"], "stream": case["stream"],
                     "files": {f["name"]: pm.render_file(f)[:400] for f in case["files"][:3]},
                     "impl": [t[6][:160] for t in impl["viols"][:4]]}, 3)
-        slim = {k: case[k] for k in ("W", "k", "stream", "via", "order_seed", "storage_mode", "files") if k in case}
+        slim = {k: case[k] for k in ("W", "k", "stream", "via", "order_seed", "storage_mode", "ignore", "files") if k in case}
+        if any((case["files"][t[0]]["lang"] == "py") != (case["files"][rf]["lang"] == "py") for t in impl["viols"] for rf, _, _ in t[5]):
+            chk.dist("cross-language duplicate reported")
+        if case.get("ignore"):
+            chk.dist("suppression:dry.ignore pattern")
+        for kind in sorted({pm.directive_of(f["lang"], l) for f in case["files"] for l in f["lines"]} - {None}):
+            chk.dist("suppression:" + kind)
         chk.dist("storage:" + case.get("storage_mode", "memory"))
         if impl["failures"]:
             chk.violation({"reason": "a rule failed internally (swallowed exception) during the run", "failures": impl["failures"][:3], "case": slim})
@@ -439,8 +485,14 @@ def run(tier: str, seed: int, replay: str | None = None) -> int:
         if bits is None:
             continue
         chk.traces_validated += 1
+        nkw = sum(len(t[2]) for t in (impl.get("kw") or []))
+        if nkw:
+            chk.dist("kwarg-filter unit answers", nkw)
+            chk.dist("kwarg-filter unit answers:filtered", sum(1 for t in impl["kw"] for x in t[2] if x[2]))
+        if impl.get("kw") is None:
+            chk.notes.append("KeywordArgumentFilter could not be imported: its unit-level correspondence was skipped")
         parse_ok, lit_ok = bits[0], bits[1]
-        clauses = dict(zip(["sound", "mutual", "complete", "count"], bits[2:6]))
+        clauses = dict(zip(["sound", "mutual-unless-suppressed", "complete-unless-suppressed", "count/nothing-suppressed-reported/stored-rows-well-formed"], bits[2:6]))
         ideal_ok, cand, cls = bits[6], bits[7:12], bits[12:15]
         for name, c in zip(FLAGS, cls):
             if c:
@@ -450,7 +502,7 @@ def run(tier: str, seed: int, replay: str | None = None) -> int:
             chk.violation({"reason": "a violation message is not the documented rendering of its fields (or the line count cannot be read back)", **info})
             continue
         if not lit_ok:
-            chk.correspondence_broken({"level": "leaf", "detail": "decomposed normalisation differs from normalize_line on the rendered line", "case": slim})
+            chk.correspondence_broken({"level": "leaf", "detail": "decomposed normalisation differs from normalize_line on the rendered line, a stray directive keyword occurs, or the KeywordArgumentFilter model and the real filter disagree on a window", "case": slim})
         cands_all = cand if cands_all is None else [a and b for a, b in zip(cands_all, cand)]
         failed = [k for k, ok in clauses.items() if not ok]
         if not failed:
